@@ -97,7 +97,8 @@ func c17(r *Report) {
 	c17DpopKeyArgs(r, dp)
 	// jwkIsPrivateKey: returns false only if all three private conversions fail
 	r.Gate(Gate{ID: "C17.dpop.private-detector", Fn: p.Func("crypto/dpop", "", "jwkIsPrivateKey"), Effect: ReturnsBool(0, false),
-		Check: Check{Desc: "jwk.Raw(private key type) fails (all sites)", Call: ptr(Fn(jwkPkg, "Key", "Raw")), Result: -1, Pass: NonNil, MinSite: 3}, Note: "each Raw() must fail"})
+		Check: Check{Desc: "jwk.Raw(private key type) fails (all sites)", Call: ptr(Fn(jwkPkg, "Key", "Raw")), Result: -1, Pass: NonNil, MinSite: 3, EachSiteTested: true}, Note: "each Raw() must fail"})
+	c17PrivateTargets(r, p.Func("crypto/dpop", "", "jwkIsPrivateKey"))
 
 	// tokenV2
 	cis := p.Func("http/tokenV2", "", "credentialIsSecure")
@@ -111,6 +112,20 @@ func c17(r *Report) {
 	r.Gate(Gate{ID: "C17.dag.one-signature", Fn: parse, Effect: SuccessReturn(), Check: CmpCheck("len(Signatures()) > 1 is false", token.LEQ, sigLen, IntV(1), true)})
 	r.Gate(Gate{ID: "C17.dag.nonzero-signature", Fn: parse, Effect: SuccessReturn(), Check: CmpCheck("len(Signatures()) == 0 is false", token.EQL, sigLen, IntV(0), false)})
 	r.Gate(Gate{ID: "C17.dag.alg-allowlist", Fn: p.Func("network/dag", "", "parseSigningAlgorithm"), Effect: SuccessReturn(), Check: CallCheck(Fn("network/dag", "", "isAlgoAllowed"), -1, IsTrue)})
+
+	c17StepTableHasAlg(r, parse)
+	// v1 access tokens: the verification key is resolved only for a kid whose private key this node holds
+	if ia := p.Func("auth/services/oauth", "authzServer", "IntrospectAccessToken"); ia == nil {
+		r.Lost("C17.v1token.own-key", "GATE", "authzServer.IntrospectAccessToken not found")
+	} else {
+		for _, cl := range ia.AnonFuncs {
+			res := CallEffect(p.FnOrImpl("vdr/resolver", "KeyResolver", "ResolveKeyByID"))
+			r.Gate(Gate{ID: "C17.v1token.own-key.exists", Fn: cl, Effect: res, Check: CallCheck(p.FnOrImpl("crypto", "KeyResolver", "Exists"), 0, IsTrue)})
+			r.Gate(Gate{ID: "C17.v1token.own-key.lookup-ok", Fn: cl, Effect: res, Check: ErrCheck(p.FnOrImpl("crypto", "KeyResolver", "Exists"))})
+		}
+	}
+	c17SignedBytes(r, p.Func("vcr/signature/proof", "LDProof", "Verify"), "verified")
+	c17SignedBytes(r, p.Func("vcr/signature/proof", "LDProof", "Sign"), "signed")
 
 	// ExtractProtectedHeaders
 	r.Gate(Gate{ID: "C17.headers.one-signature", Fn: p.Func("crypto", "", "ExtractProtectedHeaders"), Effect: CallEffect(Fn(jwsPkg, "Headers", "AsMap")), Check: oneSig})
@@ -226,6 +241,13 @@ func c17DpopKeyArgs(r *Report, dp *ssa.Function) {
 			r.Bad(key, rule, p.Pos(ci.Pos()), "WithKey arguments are not headers.Algorithm()/headers.JWK()")
 			return
 		}
+		for _, av := range a[:2] {
+			recv := StripConv(av).(*ssa.Call).Common().Value
+			if !CallV(Fn(jwsPkg, "Signature", "ProtectedHeaders"), -1).M(recv) {
+				r.Bad(key, rule, p.Pos(ci.Pos()), "the headers the key/algorithm are read from are "+AccessPath(recv, 0)+", not the signature's protected (signed) headers")
+				return
+			}
+		}
 	}
 	r.Sites += n
 	if n != 1 {
@@ -323,4 +345,96 @@ func c17AllowlistWriters(r *Report) {
 		r.Own(OwnSpec{ID: "C17.own.allowlist." + g.name, Op: "write " + g.pkg + "." + g.name, Sites: sites, Min: 1, Classes: []string{"prod", "generated", "testhelper", "mock"},
 			Owners: map[string]string{g.pkg + ".init": "initialiser", "crypto/jwx.AddSupportedAlgorithm": "build-tag extension (ES256K)"}})
 	}
+}
+
+// c17PrivateTargets: the private-JWK detector tries every private key type the JWK library can produce.
+func c17PrivateTargets(r *Report, fn *ssa.Function) {
+	rule := "TABLE: jwkIsPrivateKey converts the JWK to each of rsa.PrivateKey, ecdsa.PrivateKey and ed25519.PrivateKey"
+	key := "C17.dpop.private-detector.types"
+	if fn == nil {
+		r.Lost(key, rule, "jwkIsPrivateKey not found")
+		return
+	}
+	have := map[string]bool{}
+	for _, c := range Calls(fn, Fn(jwkPkg, "Key", "Raw")) {
+		a := StripConv(CallArg(c.Common(), 0))
+		if mi, ok := a.(*ssa.MakeInterface); ok {
+			a = mi.X
+		}
+		have[a.Type().String()] = true
+	}
+	r.Sites += len(have)
+	var missing []string
+	for _, w := range []string{"*crypto/rsa.PrivateKey", "*crypto/ecdsa.PrivateKey", "*crypto/ed25519.PrivateKey"} {
+		if !have[w] {
+			missing = append(missing, w)
+		}
+	}
+	if len(missing) > 0 {
+		r.Bad(key, rule, r.P.Pos(fn.Pos()), "not tried: "+strings.Join(missing, ", "))
+		return
+	}
+	r.OK(key, rule, r.P.Pos(fn.Pos()), "3 private key types", true)
+}
+
+// c17StepTableHasAlg: the algorithm allow-list step is part of the parse-step list.
+func c17StepTableHasAlg(r *Report, parse *ssa.Function) {
+	rule := "TABLE: parseSigningAlgorithm (the algorithm allow-list) is in ParseTransaction's step list"
+	key := "C17.dag.alg-step-listed"
+	if parse == nil {
+		r.Lost(key, rule, "ParseTransaction not found")
+		return
+	}
+	for _, f := range sliceLitFuncs(parse, "transactionParseStep") {
+		if f.Name() == "parseSigningAlgorithm" {
+			r.Sites++
+			r.OK(key, rule, r.P.Pos(parse.Pos()), "listed", true)
+			return
+		}
+	}
+	r.Bad(key, rule, r.P.Pos(parse.Pos()), "parseSigningAlgorithm is not in the step list: the allow-list is never consulted")
+}
+
+// c17SignedBytes: the bytes that are signed / verified are digest(canonical proof options) || digest(canonical document):
+// two different canonicalisations, the second one of the function's document parameter.
+func c17SignedBytes(r *Report, fn *ssa.Function, what string) {
+	rule := "ARG: the " + what + " bytes are digest(canonicalised proof options) followed by digest(canonicalised document parameter)"
+	if fn == nil {
+		r.Lost("C17.ldproof.bytes", rule, "function not found")
+		return
+	}
+	key := "C17.ldproof.bytes @ " + r.P.FuncName(fn)
+	digest := r.P.FnOrImpl("vcr/signature", "Suite", "CalculateDigest")
+	canon := r.P.FnOrImpl("vcr/signature", "Suite", "CanonicalizeDocument")
+	ds := Calls(fn, digest)
+	r.Sites += len(ds)
+	if len(ds) != 2 {
+		r.Bad(key, rule, r.P.Pos(fn.Pos()), fmt.Sprintf("%d CalculateDigest calls (expected 2)", len(ds)))
+		return
+	}
+	a0, a1 := CallArg(ds[0].Common(), 0), CallArg(ds[1].Common(), 0)
+	if SameExpr(a0, a1, 4) {
+		r.Bad(key, rule, r.P.Pos(ds[1].Pos()), "both digests are taken over the same value: the document (or the proof options) is not covered by the signature")
+		return
+	}
+	docSeen, otherSeen := false, false
+	for _, a := range []ssa.Value{a0, a1} {
+		if !CallV(canon, 0).M(a) {
+			r.Bad(key, rule, r.P.Pos(fn.Pos()), "a digest is taken over "+AccessPath(a, 0)+", not over a canonicalised document")
+			return
+		}
+		c := StripConv(a).(*ssa.Extract).Tuple.(*ssa.Call)
+		in := CallArg(c.Common(), 0)
+		if ParamV("document").M(StripConv(in)) || ParamV("document").M(in) {
+			docSeen = true
+		} else {
+			otherSeen = true
+		}
+	}
+	if !docSeen || !otherSeen {
+		r.Bad(key, rule, r.P.Pos(fn.Pos()), "the two digests do not cover the document parameter and the proof options respectively")
+		return
+	}
+	// both feed one append whose result is the payload
+	r.OK(key, rule, r.P.Pos(fn.Pos()), "two distinct canonicalisations, one of the document parameter", true)
 }
